@@ -343,6 +343,25 @@ def _elim(stmts, mk):
             # a branch that leaves by `raise` keeps leaving; one that returned now falls to the end of the list
             out.append(_mk_if(s.test, body, orelse, s))
             return out
+        if isinstance(s, ast.Try):
+            # a flag says "the helper has returned": set where a return stood, it guards the else-clause and whatever follows
+            flag = f"_ret{next(_counter)}"
+
+            def mk_flag(v, at, mk=mk, flag=flag):
+                return mk(v, at) + [ast.copy_location(ast.Assign(targets=[ast.Name(id=flag, ctx=ast.Store())], value=ast.Constant(value=True), lineno=getattr(at, "lineno", 0)), at)]
+
+            def guard(stmts_):
+                return [ast.copy_location(ast.If(test=ast.UnaryOp(op=ast.Not(), operand=ast.Name(id=flag, ctx=ast.Load())), body=stmts_, orelse=[]), s)] if stmts_ else []
+
+            new_try = ast.copy_location(ast.Try(
+                body=_elim(s.body, mk_flag) or [ast.copy_location(ast.Pass(), s)],
+                handlers=[ast.copy_location(ast.ExceptHandler(type=h.type, name=h.name, body=_elim(h.body, mk_flag) or [ast.copy_location(ast.Pass(), h)]), h) for h in s.handlers],
+                orelse=guard(_elim(s.orelse, mk_flag)) if s.orelse else [],
+                finalbody=s.finalbody), s)
+            out.append(ast.copy_location(ast.Assign(targets=[ast.Name(id=flag, ctx=ast.Store())], value=ast.Constant(value=False), lineno=getattr(s, "lineno", 0)), s))
+            out.append(new_try)
+            out.extend(guard(_elim(rest, mk)))
+            return out
         if isinstance(s, ast.With):
             if rest:
                 raise Cannot("return inside with followed by code")
